@@ -1,6 +1,7 @@
 /- line-protocol handler for the bitemporal store model (C17)
 
    (bitemp merge T:<stamp> <ts>)     store := bi_merge(store, Bi(ts, stamp));  reply: the rows of the store
+   (bitemp mergelist (L (T T:<stamp> <ts>)*))   store := bi_merge(store, [Bi(ts, stamp), ...]);  reply: the rows of the store | N
    (bitemp read  <N|T:asof> I:<what>) reply: bi_read(store, asof, what) as a series
    (bitemp spec  <N|T:asof>)          reply: the fold of the publication log (`specRead`) - what the
                                       property says an as-of read must return
@@ -45,6 +46,16 @@ def handle (s : St) (op : String) (args : List Sexp) : Option (St × String) := 
       let ts ← TS.ofVal (← Val.ofSexp ts)
       match biMergeE s.store (Bi ts stamp) with
       | .ok st => pure ({ store := some st, log := s.log ++ [⟨stamp, ts⟩] }, "ok " ++ (rowsVal st).render)
+      | .error e => pure (s, "err " ++ e.render)
+  | "mergelist", [vs] =>
+      let vs ← match ← Val.ofSexp vs with
+        | .list xs => xs.mapM fun (x : Val) => match x with
+            | Val.tuple [Val.cell (Cell.dt stamp), ts] => (TS.ofVal ts).map fun ts => (⟨stamp, ts⟩ : Version)
+            | _ => Option.none
+        | _ => Option.none
+      match biMergeLE s.store (vs.map fun v => Bi v.ts v.stamp) with
+      | .ok st => pure ({ store := st, log := s.log ++ vs },
+          match st with | some st => "ok " ++ (rowsVal st).render | Option.none => "ok N")
       | .error e => pure (s, "err " ++ e.render)
   | "read", [asof, what] =>
       let asof ← asofOf asof
